@@ -144,3 +144,48 @@ decorate_for_target! {
         })
     }
 }
+
+/// Read-only accessors for the verification harness. Compiled only with the `sfwa_verif` feature.
+#[cfg(all(feature = "sfwa_verif", not(target_family = "wasm")))]
+pub mod verif {
+    use super::Context;
+
+    /// The current thread's log ring as the host would read it after `finalize`:
+    /// (segment 1 bytes, segment 2 bytes, offset of segment 1 from the ring base,
+    /// offset of segment 2 from the ring base or `None` when it is a null pointer,
+    /// ring base address, ring capacity).
+    pub fn log_snapshot() -> (Vec<u8>, Vec<u8>, usize, Option<usize>, usize, usize) {
+        Context::with(|context| {
+            let base = context.logs.verif_base();
+            let (p1, l1, p2, l2) = context.logs.read_ptrs();
+            let s1 = unsafe { std::slice::from_raw_parts(p1, l1) }.to_vec();
+            let (s2, o2) = if p2.is_null() {
+                (Vec::new(), None)
+            } else {
+                (
+                    unsafe { std::slice::from_raw_parts(p2, l2) }.to_vec(),
+                    Some(p2 as usize - base),
+                )
+            };
+            (s1, s2, p1 as usize - base, o2, base, context.logs.verif_capacity())
+        })
+    }
+
+    /// The raw second-segment length reported by `read_ptrs` (also when the pointer is null).
+    pub fn log_read_lens() -> (usize, usize) {
+        Context::with(|context| {
+            let (_, l1, _, l2) = context.logs.read_ptrs();
+            (l1, l2)
+        })
+    }
+
+    /// The current thread's output bytes at this moment, finished or not.
+    pub fn output_snapshot() -> Vec<u8> {
+        Context::with(|context| context.output_bytes.as_slice().to_vec())
+    }
+
+    /// Base address and length of the current thread's input bytes.
+    pub fn input_base() -> (usize, usize) {
+        Context::with(|context| (context.input_bytes.as_ptr() as usize, context.input_bytes.len()))
+    }
+}
